@@ -184,7 +184,7 @@ pub fn run(report: &Report) -> i32 {
         "c20",
         "histories from the transfer generator (faults, closes, idle timeouts, datagrams, late timers) replayed under R1 identical / R2 time-shifted (1 us .. 10 years) / R3 spurious handle_timeout+poll_transmit calls; oracle: identical canonical output traces (transmits incl. bytes, events, timeouts, poll_timeout values), extra calls return nothing, timeout service converges at one instant, silence after Drained; non-trivial = a timer fired, a retransmission happened, >= 50 outputs and >= 5 spurious calls were inserted",
         arb_twin,
-        report.cases(4000, 200_000),
+        report.cases(12_000, 400_000),
         case,
     );
     report.finish("generated-input search (proptest) with metamorphic replay relations")
